@@ -328,6 +328,41 @@ def corpus():
     return out
 
 
+QUIRK_OPERANDS = [
+    # the two re.sub calls remove EVERY match and their `.` is any character but a newline
+    "@contact.x@contact.y", "@fields.a@fieldsXb", "@contact.@fields.name", "@contact.a@contact\nb", "@fields.\nx", "@results.a@results.b",
+    "@results.a@resultsXb", "@results.@contact.name", "@contact.@results.x", "@contact.", "@fields.", "@results.", "@contact..", "@fields..a",
+    "@contactXname", "@CONTACT.name", "@Contact.name", "@fields.name", "@fields.language.x", "@contact.Name", "@contact.groups ", " @contact.name",
+    "@contact.channel", "@contact.language", "@contact.name", "@contact.é日", "@results.é日.\U0001F600", "@fields.a b.c d", "@results.a\"b.c\\d",
+    # the urn-path pattern: re.match (a prefix), [a-z]+, \s+ (any Unicode white space)
+    '@(default(urn_parts(urns.tel).path,  ""))', '@(default(urn_parts(urns.tel).path,\t""))', '@(default(urn_parts(urns.tel).path,\u00a0\n""))',
+    '@(default(urn_parts(urns.tel).path,\u2003""))', '@(default(urn_parts(urns.tel).path,\u200b""))', '@(default(urn_parts(urns.tel).path,""))',
+    '@(default(urn_parts(urns.tel).path, ""))xyz', '@(default(urn_parts(urns.Tel).path, ""))', '@(default(urn_parts(urns.).path, ""))',
+    '@(default(urn_parts(urns.tel2).path, ""))', '@(default(urn_parts(urns.ext).path, ""))', ' @(default(urn_parts(urns.tel).path, ""))',
+    '@(default(urn_parts(urns.tel).path, "")', '@(default(urn_parts(urns.zzzzzz).path, "")) @contact.name',
+    "@(urn_parts(contact.urn).scheme)", "@(urn_parts(contact.urn).scheme) ", "@contact.groups", "@contact.groups.x", "", "@", "@.", "x",
+]
+
+
+def operand_corpus(open_ids):
+    """tie only: one positioned switch node per operand shape and wait setting — the shapes that drive
+    every branch of the model of render_ui (Rpft.DocumentUi) incl. the ones the property's generator
+    keeps away from (a path holding a further '@contact.' / '@fields.' / '@results.', an empty path,
+    the urn-path pattern matched as a prefix / with other white space)"""
+    out = []
+    for i, op in enumerate(QUIRK_OPERANDS):
+        for wait in (None, {"type": "msg"}):
+            nid = "a0000000-0000-4000-8000-%012x" % i
+            rt = {"type": "switch", "operand": op, "cases": [], "default_category_uuid": "c0000000-0000-4000-8000-00000000000c",
+                  "categories": [{"uuid": "c0000000-0000-4000-8000-00000000000c", "name": "Other", "exit_uuid": "e0000000-0000-4000-8000-00000000000e"}]}
+            if wait:
+                rt["wait"] = wait
+            node = {"uuid": nid, "actions": [], "router": rt, "exits": [{"uuid": "e0000000-0000-4000-8000-00000000000e", "destination_uuid": None}]}
+            d = _doc([_wrap_flow([node], ui={"nodes": {nid: {"position": {"left": i, "top": 0}, "type": "split_by_expression", "config": {"cases": {}}}}})])
+            out.append((f"quirk:operand_corpus:{i}:{'wait' if wait else 'nowait'}", d, open_ids))
+    return out
+
+
 # ----------------------------------------------------------------------------- workers
 
 
@@ -605,6 +640,10 @@ def run(ck: core.Check):
         ck.count("quirk." + name)
         ck.evaluations += 1
         qitems.append((f"quirk:{name}:seed={seed}", d, open_ids))
+    oc = operand_corpus(open_ids)
+    ck.count("quirk.operand_corpus", len(oc))
+    ck.evaluations += len(oc)
+    qitems += oc
     qres = par.pmap(case_worker, core.shard(qitems, par.NPROC * 2))
     fold(qres, "quirk_documents(tie only)")
     for r in qres:
